@@ -148,6 +148,39 @@ def examine_format(case):
     return out
 
 
+def expected_text(value, prec):
+    """h:mm:ss text of the exact duration `value` (a Fraction with at most 5 decimals) rounded UP to `prec` decimals."""
+    units = -((-value * 10 ** prec) // 1)           # ceiling
+    secs, frac = divmod(int(units), 10 ** prec)
+    h, rem = divmod(secs, 3600)
+    m, sec = divmod(rem, 60)
+    t = '%d:%02d:%02d' % (h, m, sec) if h else '%d:%02d' % (m, sec) if m else '%d' % sec
+    return t + ('.%0*d' % (prec, frac) if prec else '')
+
+
+def examine_format_exact(case):
+    """A duration handed over as an exact number (Decimal, Fraction - finer than any double at its size): the text is that of
+    the value itself, rounded up."""
+    from decimal import Decimal
+    txt, prec = case['value'], case['prec']
+    want = expected_text(Fraction(txt), prec)
+    out = []
+    for name, v in (('Decimal', Decimal(txt)), ('Fraction', Fraction(txt))):
+        # (called outside the ambient decimal contexts: arithmetic on a caller's Decimal is the caller's context's by definition)
+        try:
+            r = ('ret', athlib.format_seconds_as_time(v, prec))
+        except Exception as e:
+            r = ('exc', type(e).__name__, str(e)[:200])
+        if r[0] == 'exc':
+            out.append(V('format', ['format', 'raises', r[1], 'exact-carrier'], dict(case, carrier=name), r[:3], want))
+        elif r[1] != want:
+            below = 'rounded-down' if isinstance(r[1], str) and r[1] < want and len(r[1]) <= len(want) else 'differs'
+            out.append(V('never-rounded-down', ['format', 'exact-carrier', below], dict(case, carrier=name), r[1], want))
+        if out:
+            break
+    return out
+
+
 def residue_floats(rng, n):
     out = []
     for _ in range(n):
@@ -342,7 +375,7 @@ def shard_parse(ctx, payload):
 
 
 def examine(case):
-    return {'round': examine_round, 'format': examine_format, 'parse': examine_parse}[case['kind']](case)
+    return {'round': examine_round, 'format': examine_format, 'parse': examine_parse, 'format-exact': examine_format_exact}[case['kind']](case)
 
 
 def run(ctx):
@@ -357,6 +390,22 @@ def run(ctx):
         ints.append(rng0.choice('123456789') + ''.join(rng0.choice('0123456789') for _ in range(n - 1)))
     ints.append('9' * 30)
     run_shards(ctx, 'checks.c06', 'shard_round', [(i, thorough) for i in ints], disjoint=True)
+    # (b') exact carriers of a duration: Decimal / Fraction, from ordinary times to values finer than any double at their size
+    rngx = random.Random(derive_seed(ctx.seed, 'C06-exact'))
+    for i in range(6000 if thorough else 1500):
+        k = rngx.randrange(6)
+        whole = rngx.randrange(0, 400000) if k < 3 else rngx.choice([59, 3599, 3600, 86399, 359999]) if k == 3 else \
+            2 ** 53 + rngx.randrange(1, 10 ** 6) if k == 4 else rngx.randrange(10 ** 9, 10 ** 18)
+        nd = rngx.randrange(0, 6)
+        fr = ''.join(rngx.choice('0123456789') for _ in range(nd)) if k != 3 else '9' * nd
+        case = {'kind': 'format-exact', 'value': '%d%s' % (whole, '.' + fr if fr else ''), 'prec': rngx.randrange(4)}
+        ctx.count()
+        ctx.label('format-exact-carriers')
+        vs = examine_format_exact(case)
+        if vs:
+            ctx.violations(vs)
+        if whole >= 2 ** 53 or k == 3:
+            ctx.nontrivial(('bx', case['value'], case['prec']))
     # (b)
     rng = random.Random(derive_seed(ctx.seed, 'C06-boundaries'))
     allb = list(range(60, 360001, 60))
